@@ -64,6 +64,10 @@ Outcome ==
       [] fault = "bad_initial_guess"    -> <<"use", "ParameterError">>
       [] pred = "bogus" /\ NL > 1       -> <<"use", "ControllerError">>
       [] fault = "bad_residual_type"    -> <<"use", "ParameterError">>
+      \* near misses of a valid name (a valid prefix or suffix is not a valid name) are unknown names as well
+      [] fault \in {"residual_type_max_abs", "residual_type_fullrel", "residual_type_abs", "residual_type_full_abs_rel"}
+                                        -> <<"use", "ParameterError">>
+      [] fault \in {"initial_guess_Spread", "QI_lu"} -> <<IF fault = "QI_lu" THEN "construct" ELSE "use", IF fault = "QI_lu" THEN "KeyError" ELSE "ParameterError">>
       [] OTHER                          -> <<"none", "none">>
 
 \* what every level gets (tags), when construction succeeds
